@@ -353,7 +353,7 @@ func genHistCase(t *rapid.T) histCase {
 }
 
 func TestC08_history(t *testing.T) {
-	runRapid(t, "C08/history", 30000, genHistCase, func(c histCase) error {
+	runRapid(t, "C08/history", 100000, genHistCase, func(c histCase) error {
 		stats.Sample("C08/history", c)
 		return checkC08(c)
 	})
